@@ -121,9 +121,9 @@ def gen_method(r, cfg, spec=None, N=None):
 def gen_solver(r, cfg):
     f = r.random()
     if f < 0.6:
-        o = {"ipopt.print_level": 0, "print_time": False}
-        if r.random() < 0.5:
-            o["ipopt.max_iter"] = pick(r, [0, 1, 3, 20])
+        # (always an iteration cap: real solves of generated non-convex problems must stay bounded in steps --
+        #  a wall-clock limit would make runs irreproducible)
+        o = {"ipopt.print_level": 0, "print_time": False, "ipopt.max_iter": pick(r, [0, 1, 3, 10, 20, 40])}
         if r.random() < 0.3:
             o["ipopt.tol"] = pick(r, [1e-4, 1e-6, 1e-8])
         if r.random() < 0.2:
